@@ -509,8 +509,36 @@ def fname_of(t: T):
     return t.val if isinstance(t.val, str) else t.val[0]
 
 
+def _lift_ite(fn, u: T):
+    """fn(u) with the single if-then-else atom of u (u itself, or an atom of the linear combination / monomial u) lifted outside:
+    fn(u[ite(c, a, b)]) = ite(c, fn(u[a]), fn(u[b])).  Returns None when u has no or several such atoms (no blow-up)."""
+    if u.op not in ("ite", "add", "mul") or size(u) > 40:
+        return None  # only small arguments (a running maximum over a few prices, a clamp): big piecewise terms stay as they are
+    if u.op == "ite":
+        c, a, b = u.args
+        return ite(c, fn(a), fn(b))
+    cands = []
+    if u.op in ("add", "mul"):
+        for g in u.args:
+            if g.op == "ite":
+                cands.append(g)
+            elif g.op == "mul" and u.op == "add":
+                cands.extend(h for h in g.args if h.op == "ite")
+    if len(cands) != 1:
+        return None
+    g = cands[0]
+    c, a, b = g.args
+    try:
+        return ite(c, fn(subst(u, {g: a})), fn(subst(u, {g: b})))
+    except (ZeroDivisionError, ValueError):
+        return None  # a branch that is never taken need not be defined (e.g. 1/0 behind its own guard): leave the term as it is
+
+
 def exp(u) -> T:
     u = const(u)
+    r = _lift_ite(exp, u)
+    if r is not None:
+        return r
     if u.op == "const":
         if u.val == 0:
             return ONE
@@ -553,6 +581,9 @@ def _exp_split(m: T):
 
 def log(u) -> T:
     u = const(u)
+    r = _lift_ite(log, u)
+    if r is not None:
+        return r
     if u.op == "const" and u.val == 1:
         return ZERO
     if u.op == "const" and u.val > 0 and u.val.denominator != 1:
@@ -597,6 +628,9 @@ def log(u) -> T:
 
 def sqrt(u) -> T:
     u = const(u)
+    r = _lift_ite(sqrt, u)
+    if r is not None:
+        return r
     if u.op == "const" and u.val >= 0:
         n, dd = u.val.numerator, u.val.denominator
         rn, rd = math.isqrt(n), math.isqrt(dd)
@@ -624,6 +658,9 @@ def _negative_lead(u: T) -> bool:
 
 def Phi(u) -> T:
     u = const(u)
+    r = _lift_ite(Phi, u)
+    if r is not None:
+        return r
     if u.op == "const" and u.val == 0:
         return const(Fraction(1, 2))
     if _negative_lead(u):
